@@ -37,12 +37,23 @@ type ZS struct {
 	Iface  fmt.Stringer
 }
 
-func (z ZS) Hello() string                     { return "hello " + z.Name }
-func (z *ZS) PHello() string                   { if z == nil { return "nil-receiver" }; return "phello " + z.Name }
-func (z ZS) Add(a, b int) int                  { return a + b }
-func (z ZS) Fail() (string, error)             { return "", errors.New("zoo failure") }
-func (z ZS) OkErr() (string, error)            { return z.Name, nil }
-func (z ZS) Variadic(xs ...int) int            { s := 0; for _, x := range xs { s += x }; return s }
+func (z ZS) Hello() string { return "hello " + z.Name }
+func (z *ZS) PHello() string {
+	if z == nil {
+		return "nil-receiver"
+	}
+	return "phello " + z.Name
+}
+func (z ZS) Add(a, b int) int       { return a + b }
+func (z ZS) Fail() (string, error)  { return "", errors.New("zoo failure") }
+func (z ZS) OkErr() (string, error) { return z.Name, nil }
+func (z ZS) Variadic(xs ...int) int {
+	s := 0
+	for _, x := range xs {
+		s += x
+	}
+	return s
+}
 func (z ZS) TakesValue(v *pongo2.Value) string { return "v:" + v.String() }
 func (z ZS) Self() ZS                          { return z }
 func (z ZS) Ptr() *ZS                          { return &z }
@@ -200,7 +211,12 @@ func zooEntries(s string) []zooEntry {
 		{"f_float", func(f float64) float64 { return f * 2 }, "func(float64) float64"},
 		{"f_bool", func(b bool) bool { return !b }, "func(bool) bool"},
 		{"f_slice", func(xs []int) int { return len(xs) }, "func([]int) int"},
-		{"f_iface", func(s fmt.Stringer) string { if s == nil { return "nil" }; return s.String() }, "func(fmt.Stringer) string"},
+		{"f_iface", func(s fmt.Stringer) string {
+			if s == nil {
+				return "nil"
+			}
+			return s.String()
+		}, "func(fmt.Stringer) string"},
 	}
 	return es
 }
